@@ -424,6 +424,49 @@ pub fn rand_params(rng: &mut Rng, grid: bool) -> kp::Params {
     p
 }
 
+/// Infinite stretch that cancels: TeX adds the stretch of \leftskip/\rightskip to each line's own totals *order by order*
+/// (TeX.2021.827) and a line is "infinitely stretchable" iff some infinite total is NON-ZERO (TeX.2021.852). A line whose own
+/// glue carries exactly -s (or +s) of the order in which the skips carry s is the only place where the sign of that addition
+/// is observable (found by the mutation campaign: `Diffs + background` with one component subtracted survived everything
+/// else). The same idiom without skips is \hfil\hfilneg: a pair of glues whose infinite stretch sums to zero inside a line.
+fn cancelling_glue(rng: &mut Rng, params: &kp::Params, list: &mut [ds::Horizontal]) {
+    let glue_positions: Vec<usize> = list
+        .iter()
+        .enumerate()
+        .filter(|(i, e)| matches!(e, ds::Horizontal::Glue(_)) && *i + 2 < list.len())
+        .map(|(i, _)| i)
+        .collect();
+    if glue_positions.is_empty() {
+        return;
+    }
+    let mut bg = [0_i64; 4];
+    for g in [&params.left_skip, &params.right_skip] {
+        bg[g.stretch_order as usize] += g.stretch.0 as i64;
+    }
+    let set = |list: &mut [ds::Horizontal], at: usize, order: GlueOrder, stretch: i64| {
+        if let ds::Horizontal::Glue(g) = &mut list[at] {
+            g.value.stretch = Scaled(stretch as i32);
+            g.value.stretch_order = order;
+        }
+    };
+    let orders = [GlueOrder::Normal, GlueOrder::Fil, GlueOrder::Fill, GlueOrder::Filll];
+    if let Some(o) = (1..4).find(|&o| bg[o] != 0) {
+        if rng.coin() {
+            let s = if rng.coin() { -bg[o] } else { bg[o] };
+            for _ in 0..rng.range_usize(1, 3) {
+                let at = *rng.pick(&glue_positions);
+                set(list, at, orders[o], s);
+            }
+        }
+    } else if rng.chance(1, 12) && glue_positions.len() >= 2 {
+        let o = rng.range_usize(1, 3);
+        let s = rng.range_i32(1, 3 * PT) as i64;
+        let k = rng.below(glue_positions.len() as u64 - 1) as usize;
+        set(list, glue_positions[k], orders[o], s);
+        set(list, glue_positions[k + 1], orders[o], -s);
+    }
+}
+
 pub fn rand_instance(rng: &mut Rng, style: Style) -> Instance {
     let list = match style {
         Style::Soup => soup(rng),
@@ -431,6 +474,8 @@ pub fn rand_instance(rng: &mut Rng, style: Style) -> Instance {
     };
     let grid = style == Style::Grid;
     let params = rand_params(rng, grid);
+    let mut list = list;
+    cancelling_glue(rng, &params, &mut list);
     let nat = natural_width(&list).max(PT as i64);
     // aim for 1..6 lines
     let lines = rng.range_i64(1, 6);
